@@ -36,6 +36,7 @@ type spec struct {
 	sbranch bool   // stream branches reading one chunk
 	cap     int    // pipe capacity of producers
 	chunks  int    // chunks every producer sends (more than all buffers on its way when "long")
+	short   string // node whose producer sends ONE chunk only (the merged sources of a fan-in end at different times)
 
 	compiled [2]compose.Runnable[Val, Val]
 	cerr     [2]error
@@ -78,6 +79,9 @@ func (sp *spec) producer(w *world, path, key string, in *schema.StreamReader[Val
 		chunks := []Val{{key + "#0": "c0"}, gprog.NodeFn(key, Val{"n": fmt.Sprint(len(acc))})}
 		for i := 2; i < sp.chunks; i++ {
 			chunks = append(chunks, Val{fmt.Sprintf("%s#%d", key, i): "c"})
+		}
+		if path == sp.short {
+			chunks = chunks[:1]
 		}
 		for _, c := range chunks {
 			if sw.Send(c, nil) {
@@ -317,6 +321,13 @@ func (sp *spec) build() (func(), func(x *vsched.Exec) (string, error)) {
 			if _, e := sr.Recv(); e == nil {
 				got++
 			}
+		case "few":
+			for i := 0; i < 3; i++ {
+				if _, e := sr.Recv(); e != nil {
+					break
+				}
+				got++
+			}
 		}
 		sr.Close()
 		callerDone = true
@@ -372,15 +383,15 @@ func shapes() map[string]*gprog.Prog {
 		return &gprog.Prog{Mode: mode, Nodes: L("x", "y"), Edges: E("start>x", "x>y", "y>end")}
 	}
 	return map[string]*gprog.Prog{
-		"dag-lin2":       {Mode: gprog.MDag, Nodes: L("a", "b"), Edges: E("start>a", "a>b", "b>end")},
-		"pregel-lin2":    {Mode: gprog.MPregel, Nodes: L("a", "b"), Edges: E("start>a", "a>b", "b>end")},
-		"dag-fan":        {Mode: gprog.MDag, Nodes: L("a", "b"), Edges: E("start>a", "start>b", "a>end", "b>end")},
-		"pregel-fan":     {Mode: gprog.MPregel, Nodes: L("a", "b"), Edges: E("start>a", "start>b", "a>end", "b>end")},
-		"wf-fan":         {Mode: gprog.MWorkflow, Nodes: L("a", "b"), Edges: E("start>a", "start>b", "a>end", "b>end")},
-		"dag-copyjoin":   {Mode: gprog.MDag, Nodes: L("a", "b", "c"), Edges: E("start>a", "a>b", "a>c", "b>end", "c>end")},
-		"wf-copyjoin":    {Mode: gprog.MWorkflow, Nodes: L("a", "b", "c"), Edges: E("start>a", "a>b", "a>c", "b>end", "c>end")},
-		"dag-branch":     {Mode: gprog.MDag, Nodes: L("a", "b", "c"), Edges: E("start>a", "b>end", "c>end"), Branches: []gprog.Branch{{From: "a", Targets: []string{"b", "c"}}}},
-		"pregel-branch":  {Mode: gprog.MPregel, Nodes: L("a", "b"), Edges: E("start>a", "b>end"), Branches: []gprog.Branch{{From: "a", Targets: []string{"b", "end"}}}},
+		"dag-lin2":        {Mode: gprog.MDag, Nodes: L("a", "b"), Edges: E("start>a", "a>b", "b>end")},
+		"pregel-lin2":     {Mode: gprog.MPregel, Nodes: L("a", "b"), Edges: E("start>a", "a>b", "b>end")},
+		"dag-fan":         {Mode: gprog.MDag, Nodes: L("a", "b"), Edges: E("start>a", "start>b", "a>end", "b>end")},
+		"pregel-fan":      {Mode: gprog.MPregel, Nodes: L("a", "b"), Edges: E("start>a", "start>b", "a>end", "b>end")},
+		"wf-fan":          {Mode: gprog.MWorkflow, Nodes: L("a", "b"), Edges: E("start>a", "start>b", "a>end", "b>end")},
+		"dag-copyjoin":    {Mode: gprog.MDag, Nodes: L("a", "b", "c"), Edges: E("start>a", "a>b", "a>c", "b>end", "c>end")},
+		"wf-copyjoin":     {Mode: gprog.MWorkflow, Nodes: L("a", "b", "c"), Edges: E("start>a", "a>b", "a>c", "b>end", "c>end")},
+		"dag-branch":      {Mode: gprog.MDag, Nodes: L("a", "b", "c"), Edges: E("start>a", "b>end", "c>end"), Branches: []gprog.Branch{{From: "a", Targets: []string{"b", "c"}}}},
+		"pregel-branch":   {Mode: gprog.MPregel, Nodes: L("a", "b"), Edges: E("start>a", "b>end"), Branches: []gprog.Branch{{From: "a", Targets: []string{"b", "end"}}}},
 		"dag-edge+branch": {Mode: gprog.MDag, Nodes: L("a", "b", "c"), Edges: E("start>a", "a>c", "b>end", "c>end"), Branches: []gprog.Branch{{From: "a", Targets: []string{"b", "end"}}}},
 		// Workflow branches carry control only: the branch's copy of a's stream goes to a target that takes its data elsewhere
 		"wf-branch-nodata": {Mode: gprog.MWorkflow, Nodes: L("a", "b"), Edges: []gprog.Edge{{From: "start", To: "a"}, {From: "start", To: "b", NoControl: true}, {From: "b", To: "end"}, {From: "a", To: "end", NoControl: true}}, Branches: []gprog.Branch{{From: "a", Targets: []string{"b", "end"}}}},
@@ -475,7 +486,10 @@ func main() {
 		for _, k := range kas {
 			for si, script := range scripts {
 				for _, caller := range []string{"all", "one", "none"} {
-					for _, variant := range []string{"plain", "closers", "sbranch", "transform", "cap0", "long"} {
+					for _, variant := range []string{"plain", "closers", "sbranch", "transform", "cap0", "long", "unequal"} {
+						if variant == "unequal" && !((sn == "dag-fan" || sn == "pregel-fan" || sn == "wf-fan") && caller == "one") {
+							continue // fan-in of two streams: one source ends after one chunk, the other is long; the caller reads a few chunks
+						}
 						if variant == "long" && caller == "all" {
 							continue // long producers matter when the caller stops early: they must be told 'closed'
 						}
@@ -490,7 +504,7 @@ func main() {
 						}
 						if quick && heavy[sn] {
 							// >= 6 threads: a lean menu in the quick tier (the full one runs in thorough)
-							if !(k.tag == "allT" || k.tag == "allS" || (k.tag == "allTp" && variant == "long")) || (caller == "none" && variant != "long") || !(variant == "plain" || variant == "closers" || variant == "long") {
+							if !(k.tag == "allT" || k.tag == "allS" || (k.tag == "allTp" && variant == "long")) || (caller == "none" && variant != "long") || !(variant == "plain" || variant == "closers" || variant == "long" || variant == "unequal") {
 								continue
 							}
 							// handlers that close their copies add a copy + forwarder per node: only the two fan shapes, one caller
@@ -512,6 +526,10 @@ func main() {
 							// nobody drains: prefix-reading stream branches, more chunks than all buffers on the way
 							sp.chunks = 9
 							sp.sbranch = len(p.Branches) > 0
+						case "unequal":
+							sp.chunks = 9
+							sp.short = "a"
+							sp.caller = "few"
 						}
 						sp.name = fmt.Sprintf("%s/%s/script%d/caller-%s/%s", sn, k.tag, si, caller, variant)
 						ok, why := sp.everyValueConsumed()
@@ -527,7 +545,7 @@ func main() {
 						if p.Mode == gprog.MWorkflow || sn == "dag-copyjoin" || sn == "dag-edge+branch" || (heavy[sn] && variant == "closers") {
 							b = bounds[:len(bounds)-2] // 7+ threads: two bounds less
 						}
-						if variant == "long" && len(b) > 2 {
+						if (variant == "long" || variant == "unequal") && len(b) > 2 {
 							b = b[:2] // long executions: bounds 0 and 1
 						}
 						sc := harness.Scenario{Name: sp.name, Bounds: b, MaxExecs: 400_000, HBCache: true, New: sp.build}
